@@ -109,6 +109,55 @@ def _():
     if bad: return "; ".join(bad[:6])
 
 
+@witness("C19", "rejection-not-a-value-error")
+def _():
+    # scc_reader.text_align, general.document_lang, general.log_level: a value of the wrong JSON type is a ValueError of the
+    # configuration parser, not an AttributeError / TypeError from inside the library; documented values are kept
+    from ttconv.scc.config import SccReaderConfiguration, TextAlignment
+    from ttconv.config import GeneralConfiguration
+    bad = []
+    for cls, key, vals in ((SccReaderConfiguration, "text_align", (True, 5, 2.5, ["left"], {}, None)),
+                           (GeneralConfiguration, "document_lang", (True, 5, [], {})),
+                           (GeneralConfiguration, "log_level", (2.5, [], {}, True, 5))):
+        for v in vals:
+            try:
+                c = cls.parse({key: v}); bad.append(f"{cls.name()}.{key}={v!r} accepted: {getattr(c, key)!r}")
+            except ValueError:
+                pass
+            except Exception as e:      # pylint: disable=broad-except
+                bad.append(f"{cls.name()}.{key}={v!r}: {type(e).__name__}: {e}")
+    for v, want in (("left", TextAlignment.LEFT), ("center", TextAlignment.CENTER), ("right", TextAlignment.RIGHT), ("auto", TextAlignment.AUTO)):
+        if SccReaderConfiguration.parse({"text_align": v}).text_align is not want: bad.append(f"text_align={v!r} not {want}")
+    if SccReaderConfiguration.parse({}).text_align is not TextAlignment.AUTO: bad.append("text_align default")
+    for v in ("INFO", "WARN", "ERROR", None):
+        if GeneralConfiguration.parse({"log_level": v}).log_level != v: bad.append(f"log_level={v!r} not kept")
+    for v in ("es-419", "en", None):
+        if GeneralConfiguration.parse({"document_lang": v}).document_lang != v: bad.append(f"document_lang={v!r} not kept")
+    g = GeneralConfiguration.parse({})
+    if (g.log_level, g.progress_bar, g.document_lang) != ("INFO", True, None): bad.append(f"general defaults {g!r}")
+    if bad: return "; ".join(bad[:6])
+
+
+@witness("C19", "config-not-an-object")
+def _():
+    import ttconv.tt as tt
+    from ttconv.scc.config import SccReaderConfiguration
+    from ttconv.config import GeneralConfiguration
+    bad = []
+    for data in ({"scc_reader": 5}, {"scc_reader": []}, {"scc_reader": "x"}, {"scc_reader": True}, [], 5, "x", True):
+        try:
+            c = tt.read_config_from_json(SccReaderConfiguration, data); bad.append(f"{data!r} accepted: {c!r}")
+        except ValueError:
+            pass
+        except Exception as e:      # pylint: disable=broad-except
+            bad.append(f"{data!r}: {type(e).__name__}: {e}")
+    if tt.read_config_from_json(SccReaderConfiguration, None) is not None: bad.append("no configuration is not None")
+    if tt.read_config_from_json(SccReaderConfiguration, {}) is not None or tt.read_config_from_json(SccReaderConfiguration, {"scc_reader": None}) is not None:
+        bad.append("absent section is not None")
+    if tt.read_config_from_json(GeneralConfiguration, {"general": {"log_level": "WARN"}}).log_level != "WARN": bad.append("general section not parsed")
+    if bad: return "; ".join(bad[:6])
+
+
 # ---------------------------------------------------------------- still recorded (what is left of them)
 @witness("C19", "undocumented-values-accepted")
 def _():
@@ -136,31 +185,3 @@ def _():
         IMSCWriterConfiguration.parse({"fps": "0" * 4300 + "25/1"})
     except ValueError as e:
         return f"fps with a 4302-digit numerator rejected: {str(e)[:60]}"
-
-
-@witness("C19", "rejection-not-a-value-error")
-def _():
-    import logging
-    from ttconv.scc.config import SccReaderConfiguration
-    import ttconv.model as model
-    bad = []
-    for v in (True, 5, ["left"], None):
-        try:
-            SccReaderConfiguration.parse({"text_align": v})
-        except ValueError:
-            pass
-        except (AttributeError, TypeError) as e:
-            bad.append(f"scc_reader.text_align={v!r}: {type(e).__name__}: {e}")
-    try:
-        model.ContentDocument().set_lang(5)
-    except ValueError:
-        pass
-    except TypeError as e:
-        bad.append(f"general.document_lang=5: TypeError: {e}")
-    try:
-        logging.Logger("c19-witness").setLevel(2.5)
-    except ValueError:
-        pass
-    except TypeError as e:
-        bad.append(f"general.log_level=2.5: TypeError: {str(e)[:50]}")
-    if bad: return "; ".join(bad)
